@@ -31,6 +31,8 @@ def run_one(path):
             return (path, "SKIP", "patch does not apply: " + r.stdout.strip()[:200])
         env = dict(os.environ, GOFLAGS="-mod=mod", GOPROXY="off", GOSUMDB="off", GOTOOLCHAIN="local")
         props = h["property"].split(",")
+        if props == ["ALL"]:
+            props = ["C%02d" % i for i in range(1, 21)]
         msgs = []
         ok = True
         for prop in props:
